@@ -34,8 +34,8 @@ CONNECTORS = {
     'direct': {'name': 'c', 'type': 'direct'},
     'socks5': {'name': 'c', 'type': 'socks', 'server': '127.0.0.1', 'port': bp['socks'], 'version': 5},
     'http-inline': {'name': 'c', 'type': 'http', 'server': '127.0.0.1', 'port': bp['http']},
-    'quic-inline': {'name': 'c', 'type': 'quic', 'server': 'localhost', 'port': bp['quic'], 'bind': '127.0.0.1:0', 'inline_udp': True, 'tls': {'ca': f'{CERTS}/ca.crt'}},
-    'quic-datagrams': {'name': 'c', 'type': 'quic', 'server': 'localhost', 'port': bp['quic'], 'bind': '127.0.0.1:0', 'inline_udp': False, 'tls': {'ca': f'{CERTS}/ca.crt'}},
+    'quic-inline': {'name': 'c', 'type': 'quic', 'server': 'localhost', 'port': bp['quic'], 'bind': '127.0.0.1:0', 'inlineUdp': True, 'tls': {'ca': f'{CERTS}/ca.crt'}},
+    'quic-datagrams': {'name': 'c', 'type': 'quic', 'server': 'localhost', 'port': bp['quic'], 'bind': '127.0.0.1:0', 'inlineUdp': False, 'tls': {'ca': f'{CERTS}/ca.crt'}},
 }
 hopA = {}
 for cname, c in CONNECTORS.items():
